@@ -58,7 +58,7 @@ theorem C04_new_get (dr : String → Bool) (cap : Nat) (s : Spec) (hwf : WFData 
     ∃ b st, call dr cap (ctorNew s) { args := [("from", fieldsOf s.data vals)] } = .ok st ∧ st.result = .record b ∧ st.drops = [] ∧
       ∀ p ∈ s.data.zip vals, ∀ sig,
         call dr cap ⟨sig, [.get p.1]⟩ { self_ := some b } = .ok { self_ := some b, result := .ref p.2, acc := [("get", p.1.offset, p.1.ty)] } := by
-  obtain ⟨b, st, hcall, hres, hcap, hdrops, _, hfound, _⟩ := ctorNew_ok dr cap s hwf vals hl hty
+  obtain ⟨b, st, hcall, hres, hcap, hdrops, _, hfound, _, _⟩ := ctorNew_ok dr cap s hwf vals hl hty
   refine ⟨b, st, hcall, hres, hdrops, ?_⟩
   intro p hp sig
   have := get_ok dr cap sig b p.1 _ (by rw [hcap]; exact hwf.inCap p.1 (List.of_mem_zip hp).1) (hfound p hp)
@@ -70,7 +70,7 @@ theorem C04_new_unpack (dr : String → Bool) (cap : Nat) (s : Spec) (hwf : WFDa
     ∃ b st st', call dr cap (ctorNew s) { args := [("from", fieldsOf s.data vals)] } = .ok st ∧ st.result = .record b ∧
       call dr cap (unpackFn s) { self_ := some b, selfGlue := some s.data } = .ok st' ∧
       st'.result = .struct ((s.data.map (·.name)).zip vals) none ∧ st'.drops = [] := by
-  obtain ⟨b, st, hcall, hres, hcap, _, _, hfound, _⟩ := ctorNew_ok dr cap s hwf vals hl hty
+  obtain ⟨b, st, hcall, hres, hcap, _, _, hfound, _, _⟩ := ctorNew_ok dr cap s hwf vals hl hty
   obtain ⟨st', hu, hr, hd, _⟩ := unpack_ok dr cap s b hcap hwf hrec (fun d hd => by
     obtain ⟨i, hi, rfl⟩ := List.mem_iff_getElem.1 hd
     exact ⟨_, hfound (s.data[i], vals[i]'(by omega)) (by rw [List.mem_iff_getElem]; exact ⟨i, by simp [hl]; exact hi, by simp⟩)⟩)
